@@ -560,14 +560,23 @@ def reference_worker(arg) -> dict:
         res["text"] = text
     # boundary count (second encode, outcome irrelevant)
     n = [0]
+    nl = [0]
     sites = set()
     want_sites = arg.get("want_sites")
+    want_lines = arg.get("want_lines")
+
+    def local(frame, event, a):
+        if event == "line":
+            nl[0] += 1
+        return local
 
     def tracer(frame, event, a):
         if event == "call" and boot.is_lib_code(frame.f_code):
             n[0] += 1
             if want_sites:
                 sites.add(boot.site_of(frame.f_code))
+            if want_lines:
+                return local
         return None
 
     try:
@@ -580,6 +589,7 @@ def reference_worker(arg) -> dict:
     except BaseException:  # noqa: BLE001
         sys.settrace(None)
     res["ncalls"] = n[0]
+    res["nlines"] = nl[0] if want_lines else None
     if want_sites:
         res["sites"] = sorted(sites)
     return res
